@@ -175,7 +175,15 @@ func buildPaths(h *expr.HTTPExpr, bodies map[string]map[string]*EndpointBodies, 
 				continue
 			}
 
-			for _, key := range f.RequestPaths {
+			requestPaths := f.RequestPaths
+			if f.IsDir() {
+				// The generated server also mounts the directory itself
+				// ("/dir/" next to "/dir/{*filepath}").
+				for _, key := range f.RequestPaths {
+					requestPaths = append(requestPaths, key[:strings.LastIndex(key, "/{")+1])
+				}
+			}
+			for _, key := range requestPaths {
 				operation := buildFileServerOperation(key, f, api)
 				// Same workaround as for endpoints: "{*name}" is not a valid
 				// path template expression, the parameter is called "name".
